@@ -68,7 +68,7 @@ fn piece_strategy() -> BoxedStrategy<Piece> {
     let b = |x: &[u8]| Just(Piece::Bytes(x.to_vec()));
     prop_oneof![
         // printable ASCII, incl. the characters that follow a backslash in escape sequences
-        6 => proptest::sample::select(vec!["a", "b", " ", "t", "n", "r", "x", "0", "1", "4", "f", "F", "e", "v", "(", ")", "*", "?", "foo", " (escaped)", " (glob)"])
+        6 => proptest::sample::select(vec!["a", "b", " ", "t", "n", "r", "x", "0", "1", "4", "f", "F", "e", "v", "(", ")", "*", "?", "foo", " (escaped)", " (glob)", "\u{3000}(glob)", "\u{a0}(?)", "\u{2003}(re*)", "$ ", "> ", "[1]"])
             .prop_map(|x| Piece::Bytes(x.as_bytes().to_vec())),
         5 => s("\\"),
         3 => proptest::sample::select(vec![0u8, 7, 8, 9, 0x0b, 0x0c, 0x0d, 0x1b, 0x1f, 0x7f])
